@@ -197,13 +197,24 @@ def run(ctx):
     chk.floor("panic-capable sites reachable from compile/load/display", len(sites), 20)
     hit_fns = {k[0] for k in I.block_hits}
     # cross-stage normalisation for the label look-ups
-    norm_ok, norm_detail = label_normalisation(p)
+    from .. import symkeys
+    bad_keys = symkeys.obligations(ctx, "symbol-key")
+    norm_ok = not bad_keys
+    norm_detail = ("definition and look-up keys are to_lowercase(name), like the parser's label check" if norm_ok else
+                   "symbol table key is not the case-folded name at: %s" % bad_keys)
     from .. import labelscan
     nscan, bad_scan = labelscan.scan(p)
     if bad_scan:
         norm_ok = False
         norm_detail = "the parser's undefined-label scan misses references: %s" % "; ".join(bad_scan[:3])
     chk.note("validate_lines interpreted on %d (shape, definition mode) cases: every label of every operand position is checked" % nscan)
+    # ... and a failing label check really makes the parser reject the text (the look-ups below rely on it)
+    from . import C03
+    chk.prefix = "parse/"
+    try:
+        C03.run(ctx, only_entry=True)
+    finally:
+        chk.prefix = ""
     for s in sites:
         if s["in_log"] and s["kind"] == "assert":
             pass
@@ -256,66 +267,4 @@ def _receiver_is_map_get(body, term):
             seen += 1
             continue
         return False
-    return False
-
-
-def label_normalisation(p):
-    """Do the translator's label keys pass through the same normalisation as the parser's validation?
-    validate_lines lower-cases definitions and references; the translator must lower-case every key it
-    inserts into or looks up in known_labels."""
-    PI = "L::parser::implementation::"
-    vb = p.need_body(PI + "validate_lines")
-    lower_val = 0
-    for path in [vb.path] + [k for k in p.bodies if k.startswith(vb.path + "::{closure")]:
-        for bb, t in mirutil.calls_in(p.bodies[path]):
-            if (mirutil.callee_def(t) or "").endswith("to_lowercase"):
-                lower_val += 1
-    validator_lowercases = lower_val >= 3
-    raw_sites = []
-    norm_sites = []
-    for path, b in p.bodies.items():
-        if not path.startswith("L::compiler::"):
-            continue
-        for bb, t in mirutil.calls_in(b):
-            d = mirutil.callee_def(t) or ""
-            if d.endswith("HashMap::<K, V, S, A>::insert") or d.endswith("HashMap::<K, V, S, A>::get"):
-                key = t["args"][1]
-                if key_is_lowercased(p, b, key):
-                    norm_sites.append((path, t["ln"], d.split("::")[-1]))
-                else:
-                    raw_sites.append((path, t["ln"], d.split("::")[-1]))
-    if validator_lowercases:
-        ok = not raw_sites and bool(norm_sites)
-    else:
-        ok = not norm_sites and bool(raw_sites)
-    return ok, ("validator lower-cases: %s; translator key sites using raw names: %s; lower-cased: %s"
-                % (validator_lowercases, raw_sites, norm_sites))
-
-
-def key_is_lowercased(p, body, op, depth=0):
-    """does the key operand derive from a call to to_lowercase (through copies, refs, derefs)?"""
-    if depth > 10:
-        return False
-    pl = mirutil.place_of(op)
-    if pl is None:
-        return False
-    for (dbb, idx, item) in mirutil.local_def_sites(body, pl["l"]):
-        if item.get("k") == "call":
-            d = mirutil.callee_def(item) or ""
-            if d.endswith("to_lowercase") or d.endswith("to_ascii_lowercase"):
-                return True
-            # conversions that keep the text
-            if d.endswith("ToString::to_string") or d.endswith("Clone::clone") or d.endswith("Deref::deref") \
-                    or d.endswith("Into::into") or d.endswith("From::from") or d.endswith("String::as_str") \
-                    or d.endswith("Borrow::borrow") or d.endswith("AsRef::as_ref"):
-                if item["args"] and key_is_lowercased(p, body, item["args"][0], depth + 1):
-                    return True
-            return False
-        if item.get("k") == "assign":
-            r = item["r"]
-            if r["k"] == "use":
-                return key_is_lowercased(p, body, r["o"], depth + 1)
-            if r["k"] == "ref":
-                return key_is_lowercased(p, body, {"c": {"l": r["p"]["l"], "p": []}}, depth + 1)
-            return False
     return False
